@@ -276,17 +276,38 @@ fn place(site: u8, call: &str) -> (String, Vec<(String, String)>) {
     }
 }
 
-/// (call template text, context additions, the kwargs map the call denotes)
-fn call_text(c: &BindCase, cname: &str) -> (String, Vec<(String, Value)>, Vec<(Key<'static>, Value)>) {
+/// the attribute list of a call in the model's wire form: `A<n> {kv <name> <value> | sp <map>}×n`
+fn attrs_wire(items: &[String]) -> String {
+    let mut s = format!("A{}", items.len());
+    for i in items {
+        s.push(' ');
+        s.push_str(i);
+    }
+    s
+}
+
+/// (call template text, context additions, the kwargs map the call denotes — right-most attribute
+/// wins —, the attributes as written for the model)
+fn call_text(c: &BindCase, cname: &str) -> (String, Vec<(String, Value)>, Vec<(Key<'static>, Value)>, String) {
     let mut ctx: Vec<(String, Value)> = Vec::new();
     let mut attrs = String::new();
+    let mut wire: Vec<String> = Vec::new();
     let mut denoted: Vec<(Key<'static>, Value)>;
     let all_str_idents = c.kwargs.iter().all(|(k, _)| k.as_str().is_some_and(|s| s.chars().all(|ch| ch.is_ascii_alphanumeric() || ch == '_')));
     let style = if all_str_idents { c.style } else { 0 };
     match style {
-        1 => {
+        1 | 3 => {
+            if style == 3 {
+                // the first key written twice, without any spread (`BuildMap`): the later one wins
+                if let Some((k, _)) = c.kwargs.first() {
+                    let k = k.as_str().unwrap();
+                    attrs.push_str(&format!(" {k}=\"EARLY\""));
+                    wire.push(format!("kv {k} {}", encode(&Value::from("EARLY"))));
+                }
+            }
             for (i, (k, v)) in c.kwargs.iter().enumerate() {
                 let k = k.as_str().unwrap();
+                wire.push(format!("kv {k} {}", encode(v)));
                 if v.is_undefined() {
                     attrs.push_str(&format!(" {k}={{nope_{i}}}"));
                 } else if i % 3 == 1 && v.as_str().is_some_and(|s| !s.contains('"')) {
@@ -308,8 +329,10 @@ fn call_text(c: &BindCase, cname: &str) -> (String, Vec<(String, Value)>, Vec<(K
             let decoy: Vec<(Key<'static>, Value)> = c.kwargs.iter().map(|(k, _)| (k.clone(), Value::from("DECOY"))).collect();
             ctx.push(("decoys".into(), map_value(&decoy)));
             attrs.push_str(" {...decoys}");
+            wire.push(format!("sp {}", encode(&map_value(&decoy))));
             for (i, (k, v)) in c.kwargs.iter().enumerate() {
                 let k = k.as_str().unwrap();
+                wire.push(format!("kv {k} {}", encode(v)));
                 ctx.push((format!("val_{i}"), v.clone()));
                 attrs.push_str(&format!(" {k}={{val_{i}}}"));
             }
@@ -318,12 +341,14 @@ fn call_text(c: &BindCase, cname: &str) -> (String, Vec<(String, Value)>, Vec<(K
                 let last = vec![(k.clone(), Value::from("LATE"))];
                 ctx.push(("late".into(), map_value(&last)));
                 attrs.push_str(" {...late}");
+                wire.push(format!("sp {}", encode(&map_value(&last))));
                 denoted.last_mut().unwrap().1 = Value::from("LATE");
             }
         }
         _ => {
             ctx.push(("kw".into(), map_value(&c.kwargs)));
             attrs.push_str(" {...kw}");
+            wire.push(format!("sp {}", encode(&map_value(&c.kwargs))));
             denoted = c.kwargs.clone();
         }
     }
@@ -333,7 +358,7 @@ fn call_text(c: &BindCase, cname: &str) -> (String, Vec<(String, Value)>, Vec<(K
         format!("{{{{ <{cname}{attrs}/> }}}}")
     };
     ctx.push(("bodyvar".into(), Value::from("<bv>")));
-    (text, ctx, denoted)
+    (text, ctx, denoted, attrs_wire(&wire))
 }
 
 struct BindOutcome {
@@ -344,7 +369,7 @@ struct BindOutcome {
 }
 
 fn run_bind(c: &BindCase) -> BindOutcome {
-    let (call, ctxadd, denoted) = call_text(c, "comp");
+    let (call, ctxadd, denoted, attrs_model) = call_text(c, "comp");
     let body_val = if c.with_body { Some(Value::safe_string("B:<bv>")) } else { None };
     let r = catch(std::panic::AssertUnwindSafe(|| {
         let mut tera = new_tera();
@@ -373,7 +398,7 @@ fn run_bind(c: &BindCase) -> BindOutcome {
     let req = format!(
         "bind {} {} {}",
         c.def.model(),
-        encode(&map_value(&denoted)),
+        attrs_model,
         body_val.as_ref().map(encode).unwrap_or_else(|| "-".into())
     );
     let (spec, spec_ok) = match spec_bind(&c.def, &denoted, body_val.as_ref()) {
@@ -459,7 +484,7 @@ fn product(
                 }
                 kwargs.extend(extra.iter().cloned());
                 let k = out.len();
-                out.push(BindCase { def: Def { params, rest: rest.clone() }, kwargs, with_body: (k + ei) % 4 == 0, style: (k % 3) as u8, site: ((k / 3) % 8) as u8 });
+                out.push(BindCase { def: Def { params, rest: rest.clone() }, kwargs, with_body: (k + ei) % 4 == 0, style: (k % 4) as u8, site: ((k / 4) % 8) as u8 });
             }
         }
         // next index
@@ -908,7 +933,7 @@ fn main() {
         match j["stream"].as_str() {
             Some("bind") => {
                 let c = bind_from_replay(&j).expect("bind case");
-                let (call, _, _) = call_text(&c, "comp");
+                let (call, _, _, _) = call_text(&c, "comp");
                 let call = format!("{:?}", place(c.site, &call));
                 let o = run_bind(&c);
                 println!("definition: {}\ncall: {call}\nimplementation: {}\nproperty (direct): {}\nmodel request: {}\nmodel: {:?}", c.def.source("comp", "{{ __tera_context | probe }}"), o.imp, o.spec, o.req, driver::run_batch(&exe, &[o.req.clone()]));
@@ -1009,7 +1034,7 @@ fn main() {
             report.evaluations += 1;
             let class = o.imp.split(' ').take(if o.imp.starts_with("err") { 2 } else { 1 }).collect::<Vec<_>>().join(".");
             report.count(&format!("bind.outcome.{class}"));
-            report.count(&format!("bind.style.{}", ["spread", "explicit+string+shorthand", "spread/explicit/spread overrides"][cases[i].style as usize % 3]));
+            report.count(&format!("bind.style.{}", ["spread", "explicit+string+shorthand", "spread/explicit/spread overrides", "duplicate explicit attribute"][cases[i].style as usize % 4]));
             report.count(&format!("bind.site.{}", ["top", "include", "child-block", "component-body", "loop", "set-block", "filter-section", "block>loop>include"][cases[i].site as usize % 8]));
             report.count(&format!("bind.params.{}", cases[i].def.params.len()));
             if !o.imp.starts_with("adderr") && !o.imp.starts_with("panic") {
@@ -1037,7 +1062,7 @@ fn main() {
         }
         for &i in sample_at {
             if i < cases.len() {
-                let (call, _, _) = call_text(&cases[i], "comp");
+                let (call, _, _, _) = call_text(&cases[i], "comp");
                 report.sample(serde_json::json!({"definition": cases[i].def.signature(), "call": call, "kwargs": encode(&map_value(&cases[i].kwargs)), "implementation": outs[i].imp, "model": model.get(i)}));
             }
         }
@@ -1083,7 +1108,7 @@ fn main() {
             for i in (1..kwargs.len()).rev() {
                 kwargs.swap(i, rng.below(i + 1));
             }
-            batch.push(BindCase { def: Def { params, rest }, kwargs, with_body: rng.chance(1, 3), style: rng.below(3) as u8, site: rng.below(8) as u8 });
+            batch.push(BindCase { def: Def { params, rest }, kwargs, with_body: rng.chance(1, 3), style: rng.below(4) as u8, site: rng.below(8) as u8 });
         }
         process(&batch, &mut report, &[take - 1]);
     }
